@@ -9,6 +9,7 @@ import (
 	"encoding/json"
 	"fmt"
 	"math"
+	"os"
 	"sort"
 	"time"
 
@@ -323,7 +324,16 @@ func main() {
 	}
 
 	if o.Replay != "" {
+		var dmf *dmFixtures
+		defer func() {
+			if dmf != nil {
+				dmf.cleanup()
+			}
+		}()
 		for _, raw := range vlib.ReadReplay(o.Replay) {
+			if replayDm(raw, &dmf, w, &samples) { // DiffManager-layer case (dm.go)
+				continue
+			}
 			var d struct {
 				Spec spec `json:"spec"`
 			}
@@ -341,6 +351,10 @@ func main() {
 		n = 4000
 	}
 	n *= o.Budget
+	onlyDm := os.Getenv("C08_PART") == "dm" // development aid: only the DiffManager-layer cases
+	if onlyDm {
+		n = 0
+	}
 	for k := 0; k < n; k++ {
 		df := ldiffh.Dfs[r.Intn(len(ldiffh.Dfs))]
 		th := []int{1, 1, 2, 2, 3}[r.Intn(5)]
@@ -351,6 +365,9 @@ func main() {
 	np := 2
 	if o.Tier == "thorough" {
 		np = 20
+	}
+	if onlyDm {
+		np = 0
 	}
 	for k := 0; k < np*o.Budget; k++ {
 		s := genHistory(r, 32, 256, "deep", 0, 1)
@@ -386,8 +403,13 @@ func main() {
 		s.Shape = "prod_boundary"
 		do(s)
 	}
+	// DiffManager layer (dm.go): real space storage + head storage + deletion state + DiffManager
+	runDm(o, r, w, &samples)
 	w.Finish("random histories (3-24 ops) of Set (new id / existing id with same or new head / several elements, ids repeated inside one call) and RemoveId (present / absent) over a universe of 4-13 hash-placed ids, "+
 		"df in {2,3,4,5,7,16,32,33}, th in {1,2,3}, hash shapes as for C07, plus production parameters (32,256) churning around the 256 boundary; after every op the incremental and a freshly filled real index answer the same queries "+
-		"(top range, canonical path of the touched hash, a sibling, off-tree ranges); non-trivial = at least 3 ops; distinct by full case term",
+		"(top range, canonical path of the touched hash, a sibling, off-tree ranges); non-trivial = at least 3 ops; distinct by full case term. "+
+		"DiffManager layer: histories (8-25 ops) of real operations on a real space storage (tree storage create incl. derived / with parent / existing id, AddRawChanges moving or forking heads, ACL storage AddAll, key-value storage New/Set, "+
+		"deletionstate Add (also for ids not stored yet) / Delete, process restart) and histories of raw headStorage.UpdateEntry calls (root-only / id among several heads / with and without CommonSnapshot / derived / status 0,1,2), params (32,256),(2,1),(3,2),(16,1); "+
+		"after every op: live Hash(), elements, StateStorage hash; at probe points a second DiffManager runs FillDiff on a fresh ldiff over the same storage; non-trivial = at least 3 delivered updates and 1 probe",
 		samples, nil)
 }
